@@ -20,6 +20,8 @@ IntAccessorsOk(e) == \A i \in DOMAIN e.lo : e.lo[i] # <<>> /\ DyIsZero(Dy(e.lo[i
 BoundsWhy(e) ==
   IF e.panic # 0 THEN "panic"
   ELSE IF IsIntT(e.t) /\ ~IntAccessorsOk(e) THEN "max-accessor-differs-from-documentation"
+  \* transparency: Alpha::min_alpha() = 0 and max_alpha() = 1 (logged last when the colour carries alpha)
+  ELSE IF e.alpha = 1 /\ ~IsIntT(e.t) /\ ~(e.lo[Len(e.lo)] = <<0, 0>> /\ e.hi[Len(e.hi)] = <<1, 0, 1>>) THEN "alpha-accessor-differs-from-documentation"
   ELSE IF ~(AllFin(e.clamp) /\ AllFin(e.clamp_assign) /\ AllFin(e.slice) /\ AllFin(e.clamp2)) THEN "non-finite"
   ELSE LET c == DySeq(e["in"])  cl == DySeq(e.clamp)
            hi == EffHi(e.node, e.hi)  sb == SB(e.node, e.hi)
@@ -42,6 +44,9 @@ Conv3Why(e) ==
           ELSE IF e.tv # e.u THEN "try_from_color-value-differs"
           \* whole containers (Vec, Box<[_]>) converted by the clamping conversion: element for element the same value
           ELSE IF "cvec" \in DOMAIN e /\ (e.cvec # e.c \/ e.cbox # e.c) THEN "container-from_color-differs"
+          \* the Into* mirror images and the in-place guards (into_color_mut on a value and on a slice, unclamped on a value)
+          ELSE IF "ic" \in DOMAIN e /\ (e.ic # e.c \/ e.iu # e.u \/ e.itv # e.tv \/ e.it_ok # e.t_ok) THEN "into-form-differs-from-from-form"
+          ELSE IF "cmut" \in DOMAIN e /\ (e.cmut # e.c \/ e.cmuts # e.c \/ e.umut # e.u) THEN "in-place-guard-differs"
           ELSE "ok"
 
 ConstsWhy(e) ==
